@@ -16,7 +16,7 @@ def run_script(driver, script, cfg=None, want_solver=False):
     real = pslib.Real()
     res_py = real.run(script)
     driver.reset()
-    res_lean = [driver.send(pslib.to_line(d)) for d in script]
+    res_lean = [("ok" if pslib.to_line(d) is None else driver.send(pslib.to_line(d))) for d in script]
     out = {"results_py": res_py, "results_lean": res_lean, "real": real, "py": None, "lean": None,
            "owners": None, "solver": None, "init_error": None, "py_raw": None, "lean_raw": None}
     if real.problem is None:
